@@ -72,6 +72,8 @@ enum Src {
     Outdated,
     NeverInstalled,
     LatestForOtherCandidate,
+    /// the latest set signs keccak(XDR((ApproveMessages, candidate))) instead of the rotation hash
+    LatestUnderApproveCommand,
 }
 
 #[derive(Clone, Copy, Debug, PartialEq, Eq, Hash, Serialize, Deserialize)]
@@ -177,7 +179,7 @@ impl Scenario for C03 {
             v.push(Act::Advance(20));
         }
         for cand in [A, B, C, I0, I1] {
-            for src in [Src::Latest, Src::Older, Src::Outdated, Src::NeverInstalled, Src::LatestForOtherCandidate] {
+            for src in [Src::Latest, Src::Older, Src::Outdated, Src::NeverInstalled, Src::LatestForOtherCandidate, Src::LatestUnderApproveCommand] {
                 for byp in [Byp::No, Byp::Operator, Byp::NoAuth, Byp::OwnerAuth] {
                     if byp == Byp::OwnerAuth && src != Src::Older {
                         continue;
@@ -262,7 +264,7 @@ impl Scenario for C03 {
                 // who signs
                 let never = SetSpec { signers: vec![(3, 1)], threshold: 1, nonce: 77 };
                 let (signer_spec, signer_epoch): (Option<SetSpec>, Option<usize>) = match src {
-                    Src::Latest | Src::LatestForOtherCandidate => (ctx.specs[m.installed[n - 1]].clone(), Some(n)),
+                    Src::Latest | Src::LatestForOtherCandidate | Src::LatestUnderApproveCommand => (ctx.specs[m.installed[n - 1]].clone(), Some(n)),
                     Src::Older => {
                         if n >= 2 {
                             (ctx.specs[m.installed[n - 2]].clone(), Some(n - 1))
@@ -290,7 +292,12 @@ impl Scenario for C03 {
                 } else {
                     candidate
                 };
-                let proof = honest_proof(&ctx.keys, &spec, &DOMAIN, &signed_for.rotation_data_hash());
+                let data_hash = if *src == Src::LatestUnderApproveCommand {
+                    keccak(&xdr(&svec(vec![senum("ApproveMessages", vec![]), signed_for.scval()])))
+                } else {
+                    signed_for.rotation_data_hash()
+                };
+                let proof = honest_proof(&ctx.keys, &spec, &DOMAIN, &data_hash);
                 let bypass = *byp != Byp::No;
                 let auth: Vec<Address> = match byp {
                     Byp::Operator => vec![ctx.operator.clone()],
@@ -305,7 +312,7 @@ impl Scenario for C03 {
                 );
                 out.accepted = call.ok;
                 let proof_ok = match (src, signer_epoch) {
-                    (Src::LatestForOtherCandidate, _) => false,
+                    (Src::LatestForOtherCandidate, _) | (Src::LatestUnderApproveCommand, _) => false,
                     (_, None) => false,
                     (_, Some(e)) => match byp {
                         Byp::No => e == n,
@@ -386,7 +393,7 @@ fn main() {
         let s = C03 { thorough };
         let mut o = Opts::new(tier, if thorough { 9 } else { 7 });
         o.min_depth = 3;
-        o.rule = "construction through a factory with initial lists [], [I0], [I0,I1], [I0,I0], [I0,I1,I0], [I0,I1,A], [A,A,B], [I0,malformed_i], [malformed_i] (8 malformed shapes: empty, adjacent duplicate key, descending keys, all-zero key, zero weight, weights summing past u128, threshold 0, threshold total+1); then all rotation sequences over candidates {A,B,C(threshold==total),I0,I1, 8 malformed} x proof source {latest, older retained, outdated, never-installed, latest-signing-another-candidate} x bypass {no, operator, no auth, owner auth}; after every new state epoch(), signers_hash_by_epoch(e) for all e in 0..=epoch+1 and epoch_by_signers_hash(h) for all 13 candidate hashes are compared with the installed list".into();
+        o.rule = "construction through a factory with initial lists [], [I0], [I0,I1], [I0,I0], [I0,I1,I0], [I0,I1,A], [A,A,B], [I0,malformed_i], [malformed_i] (8 malformed shapes: empty, adjacent duplicate key, descending keys, all-zero key, zero weight, weights summing past u128, threshold 0, threshold total+1); then all rotation sequences over candidates {A,B,C(threshold==total),I0,I1, 8 malformed} x proof source {latest, older retained, outdated, never-installed, latest-signing-another-candidate, latest-signing-under-the-approval-command-tag} x bypass {no, operator, no auth, owner auth}; after every new state epoch(), signers_hash_by_epoch(e) for all e in 0..=epoch+1 and epoch_by_signers_hash(h) for all 13 candidate hashes are compared with the installed list".into();
         (s, o)
     });
 }
